@@ -367,6 +367,19 @@ def pools(ctx):
         if rng.random() < 0.15:
             digits += rng.choice("jJ")
         texts.append(digits)
+    # the window in which a "digits as integer, scaled once by an exact power of ten" conversion is tempting (Clinger's
+    # fast path): significands of 15..17 digits around 2**53, the decimal point at every place, exponents up to +-23.
+    # Correct rounding must hold there too (a 16-digit significand above 2**53 is not exact before scaling).
+    sig = [2**53 - 1, 2**53, 2**53 + 1, 2**53 + 3, 2**52 + 1, 10**15, 10**15 + 1, 10**16 - 1, 10**16 + 1, 9999791839761057, 9992384432405373]
+    sig += [rng.randint(2**53 + 1, 10**16 - 1) for _ in range(40 if ctx.quick else 2000)]
+    sig += [rng.randint(10**14, 10**15 - 1) for _ in range(10 if ctx.quick else 300)] + [rng.randint(10**16, 10**17 - 1) for _ in range(10 if ctx.quick else 300)]
+    for sg in sig:
+        d = str(sg)
+        for pnt in range(0, len(d) + 1):
+            texts.append(d[:pnt] + "." + d[pnt:])
+        for ex in (-23, -22, -16, -7, -1, 1, 7, 10, 22, 23):
+            texts.append("%se%d" % (d, ex))
+            texts.append("%s.%se%+d" % (d[:3], d[3:], ex))
     # doubles from random bit patterns, written with 17 significant digits and shortest repr
     for _ in range(n // 4):
         v = struct.unpack("<d", struct.pack("<Q", rng.getrandbits(63)))[0]
